@@ -39,9 +39,18 @@ type c25Op struct {
 	Proto string `json:"p"`
 	Kind  string `json:"k"`
 	Arg   int    `json:"a,omitempty"`
+	// Reuse (lsq acquireP): 0 a fresh Point value per call; otherwise the caller keeps ONE
+	// Point variable for the whole history and passes its address again after
+	// 1 assigning a new slot and a new hash slice, 2 a new slot and overwriting the
+	// hash's backing array in place, 3 nothing (the same values again: an identical
+	// re-acquire), 4 changing only hash bytes in place (same slot)
+	Reuse int `json:"reuse,omitempty"`
 }
 
 func (o c25Op) String() string {
+	if o.Reuse != 0 {
+		return fmt.Sprintf("%s.%s(%d,samevar%d)", o.Proto, o.Kind, o.Arg, o.Reuse)
+	}
 	if o.Arg != 0 {
 		return fmt.Sprintf("%s.%s(%d)", o.Proto, o.Kind, o.Arg)
 	}
@@ -66,6 +75,9 @@ type c25Call struct {
 	// history; snap is a deep copy taken at return time (every other call
 	// overwrites the returned object instead: the caller owns it)
 	ret, snap any
+	// sameAgain: Acquire was called with exactly the values of the previous call
+	// on the same variable (a client may legitimately skip the round trip)
+	sameAgain bool
 }
 
 func scribbleBytes(b []byte) {
@@ -346,7 +358,7 @@ func genLsqAcquire(rt *rapid.T, allowFail bool) c25Op {
 			return c25Op{Proto: "lsq", Kind: "acquireP", Arg: rapid.SampledFrom([]int{flavTooOld, flavNotOnChain}).Draw(rt, "acq_fail")}
 		}
 	}
-	return c25Op{Proto: "lsq", Kind: "acquireP", Arg: flavOK}
+	return c25Op{Proto: "lsq", Kind: "acquireP", Arg: flavOK, Reuse: rapid.SampledFrom([]int{0, 1, 1, 2, 3, 4}).Draw(rt, "same_point_variable")}
 }
 
 func genNtN(rt *rapid.T, maxOps int, maxG int) c25History {
@@ -381,6 +393,7 @@ type c25Case struct {
 	monSrv  *protocol.Protocol
 	tagSeq  atomic.Int64
 	slotSeq atomic.Int64
+	reusePt *pcommon.Point // only touched by the prologue and by worker 0 (the lsq owner)
 	abort   atomic.Bool
 }
 
@@ -416,6 +429,38 @@ func (c *c25Case) perform(oc *ouroboros.Connection, call *c25Call) {
 			if c.log.top {
 				slot = math.MaxUint64 - uint64(call.tag) // points at the top of the slot range
 				call.tag = int64(slot)
+			}
+			if o.Reuse != 0 {
+				// the caller's one long-lived Point variable, updated in place
+				pt := c.reusePt
+				mode := o.Reuse
+				if pt == nil {
+					pt = &pcommon.Point{}
+					c.reusePt = pt
+					mode = 1
+				} else if mode >= 3 && (len(pt.Hash) != 32 || pt.Hash[0] != flavOK) {
+					mode = 1 // the variable does not hold an acceptable point
+				}
+				switch mode {
+				case 1:
+					pt.Slot, pt.Hash = slot, lsqPointHash(o.Arg, slot)
+				case 2:
+					if len(pt.Hash) != 32 {
+						pt.Hash = make([]byte, 32)
+					}
+					pt.Slot = slot
+					copy(pt.Hash, lsqPointHash(o.Arg, slot))
+				case 3:
+					slot = pt.Slot
+				case 4:
+					slot = pt.Slot
+					pt.Hash[20]++
+				}
+				call.tag = int64(slot)
+				call.sameAgain = mode == 3
+				call.Start = c.clk.tick()
+				err = cl.Acquire(pt)
+				break
 			}
 			pt := pcommon.NewPoint(slot, lsqPointHash(o.Arg, slot))
 			call.Start = c.clk.tick()
@@ -854,7 +899,9 @@ func judge(h c25History, run *c25Run) (out []c25Verdict, evals int) {
 			switch cl.op.Kind {
 			case "release":
 			case "acquireV", "acquireI", "acquireP":
-				matchCalls = append(matchCalls, cl)
+				if !cl.sameAgain {
+					matchCalls = append(matchCalls, cl)
+				}
 			case "epoch":
 				if e := stamped(cl, "epoch"); e != nil {
 					// the era the client embedded in the query is itself a reply: it must
@@ -891,6 +938,44 @@ func judge(h c25History, run *c25Run) (out []c25Verdict, evals int) {
 				}
 				if e.Arg != int64(cl.op.Arg) {
 					bad(cl, "reply-to-other-amount", fmt.Sprintf("serial %d answered a request for %d peers; this call asked for %d", cl.Serial, e.Arg, cl.op.Arg))
+				}
+			}
+		}
+	}
+	// single caller: every query must have been answered by the server for the
+	// point this client acquired most recently (the server stamps what it holds)
+	if len(h.Workers) == 1 && h.SlowKind == "" && (h.Family == "lsqraw" || h.Family == "ntc") {
+		cur := int64(ptNone)
+		for _, cl := range run.calls { // prologue first, then worker 0, in program order
+			if cl.op.Proto != "lsq" || cl.hung || cl.End == 0 {
+				continue
+			}
+			if cl.Err != "" && !failureExpected(cl.op) {
+				break
+			}
+			switch cl.op.Kind {
+			case "release":
+				cur = ptNone
+			case "acquireV":
+				cur = ptVolatile
+			case "acquireI":
+				cur = ptImmutable
+			case "acquireP":
+				cur = cl.tag
+				if cl.Err != "" {
+					cur = ptNone
+				}
+			default:
+				if cur == ptNone {
+					cur = ptVolatile // the query acquires the volatile tip by itself
+				}
+				e := bySerial[cl.Serial]
+				if e == nil || e.Proto != "lsq" {
+					continue // reported above
+				}
+				evals++
+				if e.Pt != cur {
+					bad(cl, "answered-for-another-point", fmt.Sprintf("the client had last acquired %s, the server answered this query while holding %s", ptName(cur), ptName(e.Pt)))
 				}
 			}
 		}
@@ -1027,6 +1112,18 @@ func afterFailedAcquire(run *c25Run, cl *c25Call) bool {
 	return false
 }
 
+func ptName(p int64) string {
+	switch p {
+	case ptNone:
+		return "nothing"
+	case ptVolatile:
+		return "the volatile tip"
+	case ptImmutable:
+		return "the immutable tip"
+	}
+	return fmt.Sprintf("the point at slot %d", uint64(p))
+}
+
 func callResult(cl *c25Call) string {
 	if cl.Err != "" {
 		return "error " + cl.Err
@@ -1159,6 +1256,16 @@ func c25Sweep(t *testing.T, rec *evi.Recorder, nHang, nErr *atomic.Int64) {
 	rawLsq := append([]c25Op{op("lsq", "acquireI", 0), op("lsq", "acquireV", 0), op("lsq", "acquireP", flavOK)}, lsq...)
 	rawLsq = append(rawLsq, op("lsq", "acquireI", 0), op("lsq", "epoch", 0), op("lsq", "release", 0), op("lsq", "acquireP", flavNotOnChain),
 		op("lsq", "acquireP", flavTooOld), op("lsq", "point", 0), op("lsq", "acquireP", flavOK), op("lsq", "era", 0), op("lsq", "release", 0), op("lsq", "start", 0))
+	// the caller keeps one Point variable and updates it in place between Acquire calls
+	same := func(flav, mode int) c25Op { return c25Op{Proto: "lsq", Kind: "acquireP", Arg: flav, Reuse: mode} }
+	var reuse []c25Op
+	for _, m := range []int{1, 1, 2, 3, 4, 2, 1, 3} {
+		reuse = append(reuse, same(flavOK, m), op("lsq", "point", 0), op("lsq", "epoch", 0))
+	}
+	reuse = append(reuse, op("lsq", "release", 0), same(flavOK, 2), op("lsq", "era", 0), op("lsq", "release", 0), same(flavTooOld, 1), same(flavOK, 2), op("lsq", "blockno", 0),
+		op("lsq", "acquireV", 0), same(flavOK, 3), op("lsq", "start", 0), op("lsq", "acquireI", 0), same(flavOK, 4), op("lsq", "history", 0))
+	realReuse := []c25Op{same(flavOK, 1), op("lsq", "point", 0), op("lsq", "release", 0), same(flavOK, 2), op("lsq", "era", 0), op("lsq", "release", 0),
+		same(flavOK, 3), op("lsq", "epoch", 0), op("lsq", "release", 0), same(flavNotOnChain, 2), same(flavOK, 4), op("lsq", "blockno", 0)}
 	sub := []c25Op{op("ltxsub", "submit", 1), op("ltxsub", "submit", 0), op("ltxsub", "submit", 0), op("ltxsub", "submit", 1), op("ltxsub", "submit", 1), op("ltxsub", "submit", 0)}
 	mixed := append(append(append([]c25Op{}, sub...), mon[:12]...), lsq...)
 	for _, h := range []c25History{
@@ -1172,6 +1279,10 @@ func c25Sweep(t *testing.T, rec *evi.Recorder, nHang, nErr *atomic.Int64) {
 		{Family: "lsqraw", Workers: [][]c25Op{rawLsq}},
 		{Family: "lsqraw", Workers: [][]c25Op{rawLsq}, Base: 1<<62 - 1000, Top: true},
 		{Family: "lsqraw", Workers: [][]c25Op{rawLsq}, Base: 1<<31 - 4},
+		{Family: "lsqraw", Workers: [][]c25Op{reuse}},
+		{Family: "lsqraw", Workers: [][]c25Op{reuse}, Base: 250, Top: true},
+		{Family: "lsqraw", Prologue: reuse[:6], Workers: [][]c25Op{reuse[6:]}},
+		{Family: "ntc", Workers: [][]c25Op{realReuse}},
 	} {
 		c25Play(rec, t, true, h.Family, nil, &rawpeer.SeqPlan{Chunks: []int{3, 0, 64}, Yields: []int{0, 1}}, h, nHang, nErr)
 	}
